@@ -259,8 +259,43 @@ class RealignWorld(simmp.SimWorld):
             self.polls_since_empty[proc.label] = not proc.dead
 
 
+def _abstract_state(w, act, op):
+    """coarse state of the system as the parent is about to act: (what the parent does, how many
+    workers of the current round are alive / exited 0 / failed (capped at 3), state of the newest
+    queue's pipe, a result still in flight, write lock leaked, signal pending)"""
+    start = getattr(w, "round_start", 0)
+    alive = ok = bad = 0
+    busy = False
+    for p in w.procs[start:]:
+        if not p.dead:
+            alive += 1
+            if not busy and any(f.busy() for f in p.feeders):
+                busy = True
+        elif p._exitcode == 0:
+            ok += 1
+        else:
+            bad += 1
+    pipe = 0
+    leaked = False
+    if w.queues:
+        q = w.queues[-1]
+        if q.frames:
+            fr = q.frames[0]
+            pipe = 1 if fr.written == fr.total else 2
+        leaked = q.wlock_owner is not None and q.wlock_owner.dead
+    sig = any(p.pending_signals for p in w.procs[start:])
+    kind = op.kind if act.kind == "task" else "timeout:" + op.kind
+    return (kind, min(alive, 3), min(ok, 3), min(bad, 3), pipe, busy, leaked, sig)
+
+
 def _on_step(kernel, act, op):
     w = simmp.WORLD
+    if op is not None and act.target.role == "P":
+        st = _abstract_state(w, act, op)
+        w.abs_states.add(st)
+        if w.abs_prev is not None:
+            w.abs_trans.add((w.abs_prev, st))
+        w.abs_prev = st
     if act.kind == "timeout":
         w.note_probe("timeout_fired")
         busy = False
@@ -305,11 +340,11 @@ def make_policy(cfg, rng):
 class RunResult:
     __slots__ = (
         "outcome", "hang", "out", "probes", "fault_log", "trace", "decisions", "digest", "sig", "steps",
-        "sim_seconds", "timeout_seconds", "nprocs", "deaths", "api_deaths", "unsupported", "harness_error", "max_alive", "replay_misses",
+        "sim_seconds", "timeout_seconds", "nprocs", "deaths", "api_deaths", "abs_states", "abs_trans", "unsupported", "harness_error", "max_alive", "replay_misses",
     )
 
     def to_json(self):
-        return {k: getattr(self, k) for k in self.__slots__ if k != "trace"}
+        return {k: getattr(self, k) for k in self.__slots__ if k not in ("trace", "abs_states", "abs_trans")}
 
 
 def run_sim(repo, paths, cfg, decisions=None, keep_trace=True):
@@ -326,6 +361,7 @@ def run_sim(repo, paths, cfg, decisions=None, keep_trace=True):
         r.steps = r.nprocs = r.api_deaths = r.replay_misses = 0
         r.sim_seconds = r.timeout_seconds = 0.0
         r.sig = "0" * 24
+        r.abs_states, r.abs_trans = set(), set()
         r.digest = "unsupported"
         return r
     rng = random.Random("run-%s" % cfg["seed"])
@@ -345,6 +381,10 @@ def run_sim(repo, paths, cfg, decisions=None, keep_trace=True):
     world.mp_module = _MOD_INFO.get("fake_mp")
     world.pickle_at_put = bool(cfg.get("pickle_at_put", False))
     world._alive_at_empty = 0
+    world.abs_states = set()
+    world.abs_trans = set()
+    world.abs_prev = None
+    world.round_start = 0
     b = cfg.get("batch")
     if b is None:
         os.environ.pop("GAFTOOLS_VERIF_BATCH_SIZE", None)
@@ -430,6 +470,8 @@ def run_sim(repo, paths, cfg, decisions=None, keep_trace=True):
         r.unsupported = str(kernel.harness_error)
         r.harness_error = None
     r.sig = kernel.sig.hexdigest()[:24]
+    r.abs_states = world.abs_states
+    r.abs_trans = world.abs_trans
     r.replay_misses = policy.misses if isinstance(policy, Replay) else 0
     r.max_alive = 0
     # exception messages may carry temp-file names, pids or addresses: only the type enters the digest
